@@ -48,8 +48,9 @@ func loadKnownFindings() []knownFinding {
 }
 
 type baseline struct {
-	Obligations []string `json:"obligations"`
-	Approx      []string `json:"approx,omitempty"` // abstractions already present on the unchanged tree
+	Locals      map[string]map[string]string `json:"locals,omitempty"`
+	Obligations []string                     `json:"obligations"`
+	Approx      []string                     `json:"approx,omitempty"` // abstractions already present on the unchanged tree
 }
 
 var lineRe = regexp.MustCompile(` at [\w./-]+:\d+`)
@@ -149,6 +150,9 @@ func contractPhase(cr *checkResult, w *symex.World, update bool) {
 	for _, e := range w.Errors {
 		cr.undecided = append(cr.undecided, fmt.Sprintf("UNDECIDED property=%s obligation=attach reason=%s", prop, e))
 	}
+	if b := loadBaseline(prop); b != nil && !update {
+		w.LocalHints = b.Locals
+	}
 	results := make([]*symex.FuncResult, len(targets))
 	var wg sync.WaitGroup
 	sem := make(chan struct{}, 8)
@@ -163,7 +167,12 @@ func contractPhase(cr *checkResult, w *symex.World, update bool) {
 	}
 	wg.Wait()
 	var obls []*symex.Obligation
+	locals := map[string]map[string]string{}
 	for _, r := range results {
+		locals[r.Func] = r.Locals
+		for _, rb := range r.Rebound {
+			cr.notes = append(cr.notes, "contract of "+r.Func+" rebound to a renamed local: "+rb)
+		}
 		cr.functions = append(cr.functions, r.Func)
 		for _, n := range r.Inlined {
 			cr.inlined[n] = true
@@ -183,7 +192,7 @@ func contractPhase(cr *checkResult, w *symex.World, update bool) {
 	}
 	scratch := filepath.Join(verifDir, "scratch", fmt.Sprintf("%s-%d", prop, os.Getpid()))
 	defer os.RemoveAll(scratch)
-	outs := symex.Discharge(obls, symex.SolveOpts{TimeoutMs: timeout, Dir: scratch, Parallel: 12, RequireTwo: cr.tier == "thorough"})
+	outs := symex.Discharge(obls, symex.SolveOpts{TimeoutMs: timeout, Dir: scratch, Parallel: 6, RequireTwo: cr.tier == "thorough"})
 	known := loadKnownFindings()
 	baseApprox := map[string]bool{}
 	if b := loadBaseline(prop); b != nil {
@@ -271,7 +280,7 @@ func contractPhase(cr *checkResult, w *symex.World, update bool) {
 			ap = append(ap, a)
 		}
 		sort.Strings(ap)
-		saveBaselinePart(prop, names, ap)
+		saveBaselinePart(prop, names, ap, locals)
 	}
 	if b := loadBaseline(prop); b != nil {
 		have := map[string]bool{}
@@ -383,7 +392,7 @@ func sanitize(s string) string {
 	return b.String()
 }
 
-func saveBaselinePart(prop string, names []string, approx []string) {
+func saveBaselinePart(prop string, names []string, approx []string, locals map[string]map[string]string) {
 	os.MkdirAll(filepath.Join(verifDir, "baseline"), 0o755)
 	b := loadBaseline(prop)
 	keep := []string{}
@@ -396,7 +405,7 @@ func saveBaselinePart(prop string, names []string, approx []string) {
 	}
 	all := append(keep, names...)
 	sort.Strings(all)
-	data, _ := json.MarshalIndent(baseline{Obligations: all, Approx: approx}, "", " ")
+	data, _ := json.MarshalIndent(baseline{Obligations: all, Approx: approx, Locals: locals}, "", " ")
 	os.WriteFile(filepath.Join(verifDir, "baseline", prop+".json"), data, 0o644)
 }
 
